@@ -1172,10 +1172,9 @@ def inline(E, fn, closure, mod, selfv, args, kwargs, node, is_lambda=False):
         raise OutOfSubset(f"callee {fn.name} needs a contract")
     env = dict(closure) if closure else {}
     env.update(bind(E, fn, selfv, args, dict(kwargs), mod))
-    if "$trace" in st.vars:
-        env["$trace"] = st.vars["$trace"]
-    if "$yields" in st.vars:
-        env["$yields"] = st.vars["$yields"]
+    for k_ in st.vars:
+        if k_.startswith("$"):
+            env[k_] = st.vars[k_]
     saved = (st.vars, E.cur_mod, E.loop_ord)
     st.vars, E.cur_mod = env, mod
     if not is_lambda:
@@ -1198,6 +1197,9 @@ def inline(E, fn, closure, mod, selfv, args, kwargs, node, is_lambda=False):
             return r.value
     finally:
         E.inline_depth -= 1
+        for k_ in env:
+            if k_.startswith("$"):
+                saved[0][k_] = st.vars.get(k_, env[k_])  # ghost state written by the callee is visible to the caller
         st.vars, E.cur_mod, E.loop_ord = saved
 
 
@@ -1253,8 +1255,8 @@ def call_by_contract(E, c, fn, mod, selfv, args, kwargs, node):
         if not c.d.get("pure"):
             raise NeedFork() if st.pure and not st.spec else OutOfSubset(f"impure call {c.qual} in spec")
     env = bind(E, fn, selfv, args, dict(kwargs), mod)
-    for nm in ("$trace",):
-        if nm in st.vars:
+    for nm in st.vars:
+        if nm.startswith("$"):
             env[nm] = st.vars[nm]
     saved_vars, saved_entry = st.vars, st.labels.get("entry")
     pre = Snapshot(st)
@@ -1282,6 +1284,10 @@ def call_by_contract(E, c, fn, mod, selfv, args, kwargs, node):
             st.pc.append(st.nref >= pre.nref)
             st.heap.havoc(nentry_, mods, st.nref)
             E.drain()
+        for gname in c.d.get("ghost_modifies", []):
+            gty = c.d.get("ghost_state", {}).get(gname) or E.c.d.get("ghost_state", {}).get(gname)
+            env[gname] = E.symbolic(gname.strip("$"), parse_type(gty))
+            saved_vars[gname] = env[gname]
         outcomes = ["return"] + [k for k in c.raises]
         k = E.choose([z3.BoolVal(True)] * len(outcomes), check=False) if len(outcomes) > 1 else 0
         if k == 0:
@@ -1375,6 +1381,16 @@ def external_call(E, name, ext, e, recv=None, args=None, kwargs=None):
         if oc.get("ensures"):
             E.prune()
         raise RaiseEx(cls, exc, e)
+    if ext.get("ghost_get"):
+        res = st.vars[ext["ghost_get"]]
+        if ext.get("ghost_set"):
+            gname, gexpr = ext["ghost_set"]
+            st.vars[gname] = E.spec_value_env(gexpr, dict(env, result=res))
+        return res
+    if ext.get("ghost_set") and not ext.get("returns"):
+        gname, gexpr = ext["ghost_set"]
+        st.vars[gname] = E.spec_value_env(gexpr, env)
+        return NONE
     if ext.get("uf"):
         zs = []
         for a in args:
